@@ -325,6 +325,16 @@ def run(pid, tier, seed, oracle_names, title, feats=None, check_c07=False, extra
     nops = 30 if tier == "quick" else 60
     size = "small" if tier == "quick" else "medium"
     cases = E.make_cases(seed * 1009 + int(pid[1:]), nh, size=size, nops=nops, feats=feats, mode=mode)
+    if pid == "C19":
+        # the caller may declare that travel durations satisfy the triangle inequality (API only; the latest-start / latest-end
+        # exact checks are then switched off and the estimates trusted): metric models without duration groups / multipliers, where
+        # the declaration is true, and moves that go through the estimates - the exact checks of the USER constraints must still decide
+        tf = dict(feats or {}, user=True, nonmetric=False, dgroups=False, mult=False, windows=True)
+        tri = E.make_cases(seed * 1009 + 1919, nh, size=size, nops=nops, feats=tf, mode="checked_only")
+        for c in tri:
+            c["id"] = "tri" + c["id"]
+            c["model"]["triangle"] = True
+        cases += tri
     res, st = E.run_cases(cases, "%s_%s" % (pid.lower(), tier), timeout=3000)
     chk.ob("harness and model runner exit normally", st[0] == 0 and st[2] == 0, (st[1] + st[3])[-300:])
     bad = [r for r in res if r["diff"]]
